@@ -1293,6 +1293,8 @@ func (x *Exec) doReturn(st *State, in *ssa.Return) {
 			lbl = fmt.Sprintf("post%d", i)
 		}
 		x.addVC(st, "ensures", "ensures/"+lbl, c.Prop, in.Pos(), t, c.Src)
+		// later postconditions may rely on earlier ones (all of them are proved)
+		st.assume(t)
 	}
 	if x.c.Allocs >= 0 && st.allocs > x.c.Allocs {
 		x.addVC(st, "allocs", "allocs_bound", "C18", in.Pos(), False,
